@@ -297,9 +297,14 @@ package iam
 //@   assume-benign
 // Success only if the (single, common) nonce was taken out of the nonce store by this request and
 // the state stored with it is the state presented.
+// It is never called for an envelope without presentations: with none, no nonce is missing, nothing is
+// collected, and nonces[0] is read from an empty slice.
 //@ func (Wrapper).validatePresentationNonce
-//@   prop C02 C05
+//@   prop C02 C05 C19
 //@   assume-benign
+//@   safety
+//@   requires [never-called-for-an-empty-envelope] len(presentations) > 0
+//@   loop 1 invariant (allPresent && $i > 0) ==> len(nonces) >= 1
 //@   ensures [nonce-taken-and-bound-to-the-state] isNilIface(result) ==> did(call (storage.SessionStore).GetAndDelete #1) && isNilIface(ret(call (storage.SessionStore).GetAndDelete #1))
 //@        && len(nonces) == 1 && arg(call (storage.SessionStore).GetAndDelete #1, 1) == nonces[0] && state == stateFromNonce
 //@ func withCallbackURI
